@@ -34,11 +34,12 @@ def _out_term(o, conv):
 
 
 def _cost(rows, mat, inv):
-    """rough number of 256-bit inversions the model performs (for shard balancing)"""
+    """rough cost of the model evaluation (for shard balancing): cells touched by all eliminations"""
     n = len(mat.split("/")) if mat != "-" else 0
+    det = lambda k: sum((k - 1 - i) ** 2 for i in range(max(k - 1, 0))) + 1
     if inv.startswith("V:"):
-        return n * n * max(n - 3, 0) + 3 * n + 2
-    return n + 1
+        return n * n * det(n - 1) + 2 * det(n)
+    return 2 * det(n)
 
 
 def _shape(mat):
@@ -110,10 +111,25 @@ def check(run, replay=None):
         for k in range(nshard):
             perm.extend(idx[k::nshard])
         # pad-free: chunks of `size` of `perm` are close to the round-robin shards
+        # Z.modulo on 512-bit products costs ~7 ms under vm_compute: a 6x6 inverse takes ~25 s, 8x8 ~90 s in the model.
+        # quick tier: the full inverse is evaluated in Coq for n <= 5 and the first three 6x6 cases; larger matrices are
+        # compared on the determinant only (their inverses are still checked by the implementation-only oracle).
+        full = set()
+        n6 = 0
+        for i, c in enumerate(cases):
+            n = _shape(c[2])[0]
+            if run.tier == "thorough" or replay or n <= 5 or not c[4].startswith("V:"):
+                full.add(i)
+            elif n == 6 and n6 < 3:
+                n6 += 1
+                full.add(i)
+        run.extra["in_coq_full_inverse_cases"] = len(full)
+        run.extra["in_coq_determinant_only_cases"] = len(cases) - len(full)
         terms = []
         for i in perm:
             kind, rows, mat, d, inv = cases[i]
-            terms.append("(%s, %d%%nat, %s, %s)" % (_mat_term(mat), rows, _out_term(d, _hexz), _out_term(inv, _mat_term)))
+            terms.append("(%s, %d%%nat, %s, %s, %s)" % (_mat_term(mat), rows, _out_term(d, _hexz), _out_term(inv, _mat_term),
+                                                      "true" if i in full else "false"))
         corr_ok, badp, log = vlib.coq_eval_cases("C20", terms, run.dir, shard=size, timeout=1500)
         bad = sorted(perm[b] for b in badp)
         run.oblige("correspondence C20: model bareiss / matrix_inverse = real determinant / matrix_inverse outcome on every "
